@@ -114,6 +114,10 @@ def build_case(r, tier):
             if t is None or t == raw:
                 return None
             files[names[j]][0] = t
+            if any(seg and seg[0] == "head" for seg in chain):
+                # R1: an early-exit chain may legitimately stop reading before the malformed record; the result is then the
+                # transformation of the file as it would be without the damage (accepted as a second reference)
+                case["alt_files"] = {names[j]: raw}
         elif fk in ("dsl", "dsl_direct"):
             prog = "NR == 2 { $* = 3 }" if fk == "dsl" else "NR == 2 { $c = asserting_int(\"x\") }"
             args = ["mlr", "-I"] + flags + ["put", prog] + names
@@ -182,6 +186,20 @@ def reference(case, chk, vd):
             refs.append(("fail", r.code))
         else:
             refs.append(("ok", r.stdout))
+    case_alt = case.get("alt_files") or {}
+    alts = {}
+    for nm, raw in case_alt.items():
+        if nm not in case["files"]:
+            continue
+        args = ["mlr"] + [a for a in case["args"][2:] if a not in case["names"]] + [nm]
+        fk = file_kwargs(case)
+        fk["files"] = dict(fk["files"])
+        fk["files"][nm] = (raw.encode("latin1"), case["files"][nm][1])
+        r = chk.pool.run1(mkspec(args, mode="staged", **fk))
+        vd.runs.append(r)
+        if r.status == "exit" and r.code == 0:
+            alts[nm] = r.stdout
+    vd.alts = alts
     return refs
 
 
@@ -216,6 +234,10 @@ def check_files(case, refs, r, vd, cfg, final):
                 plain = data
             if plain is not None and plain == ref[1]:
                 st = "new" if st is None else "same"
+        alt = getattr(vd, "alts", {}).get(nm)
+        if st is None and alt is not None and not case["comp"][i] and data == alt:
+            st = "new"
+            vd.notes["early_exit_before_malformed_record"] = vd.notes.get("early_exit_before_malformed_record", 0) + 1
         if st is None:
             vd.add("file-half-written", name=nm, config=cfg, status=r.status, got_len=len(data), orig_len=len(ob),
                    ref_len=len(refs[i][1]) if refs[i] and refs[i][0] == "ok" else None, head=data[:80].decode("latin1"),
